@@ -1,161 +1,67 @@
-import QuiverModel.Core.RefSem.Compile0
+import QuiverModel.Core.RefSem.Compile1
 /-
 M-RefSem ↔ M-VM, fragment compiler with LOCALS, BINDINGS, SIMPLE MATCH PATTERNS AND BLOCKS (`compile2`),
-C02 stretch goal part 4: Compile1.lean + blocks with branches and `=>` (compile_scoped_expression: the
-parameter's slot, the per-branch `Reset(n+1)`, the parameter clear `Reset(n)`, the cleanup blocks).
+C02 stretch goal part 4: the fragment of Compile1.lean (whose pattern level — `Sub`, `Pat1`, `slot`,
+`compilePat`, `evalPat`, … — is reused unchanged) + BLOCKS with branches and `=>`.
 
-Adds to the value-flow fragment of Compile0.lean:
-  * reading a (non-callable) variable `x`      → `Pop, Load(slot)`            (compile_access_inner, Identifier)
-  * the in-chain match `=p` (and `x = e`, which is `e =x`) for the simple pattern forms
-        binder `x`, placeholder `_`, integer literal, flat tuple destructuring `[p₀, …]` / `A[p₀, …]`
-        (sub-patterns binder / placeholder / literal) of a value whose static type is that tuple type
-    → compile_match's template:
-        Jump(1)                    start
-        Jump(→ failure path)       the "fail jump": every failing test jumps BACK to it
-        tests   (per literal:   Duplicate, [Get(k),] Constant(c), Equal(2), Not, JumpIf(→ fail jump))
-        bindings(per binder:    Duplicate, [Get(k),] Store)            — after ALL tests, in the order of the
-                                                                         binders' NAMES (analyze_pattern sorts them)
-        Pop, Tuple(OK), Jump(over the failure path)
-        failure path: (Tuple(NIL), Store) × #bindings, Pop, Tuple(NIL)  — the nil fill
+compile_scoped_expression, for a block compiled with `n = local_count` slots in use:
+    Store                         the flowing value becomes the block parameter, slot n
+    branch₁ … branchₘ             each condition starts with Load(n); a later branch first pops the failed
+                                  condition's nil;
+      bodiless branch:  [Pop] Load(n) cond [Reset(n+1)] [Duplicate JumpIf(→PC)]
+      with consequence: [Pop] Load(n) cond Duplicate Not JumpIf(→T) Pop Load(n) cons [Reset(n+1)] [Jump(→PC)]
+                        T = next branch / PC, via the branch's cleanup block if the condition has bindings
+    PC: Reset(n)                  the parameter clear — every path reaches it with the value on the stack and
+                                  the locals of the block's start plus the parameter
+    [Jump(over the cleanup blocks)]  [cleanup blocks: Reset(n+1), Jump(→ back to the next branch / PC)]
+`Reset(n+1)` is emitted only where the compile-time local count exceeds n+1 (the branch has bindings).
 
-Compile-time state: `Γ`, the names of the frame's locals in slot order (`local_count = Γ.length`, a new
-binding takes the next slot, a name resolves to its LAST slot = innermost binding). Run time: the
-frame-relative locals `L`.
-
-The **alignment invariant** `L.length = Γ.length` (compile-time slot numbering = run-time Store order, on
-EVERY path: the failure path stores one nil per binding precisely to keep it) is what makes
-`Load(slot Γ x)` read the value bound to `x`; it is part of every correctness statement in
-Theorems/C02Loc.lean.
-
-The meaning functions are partial (`Option`): `none` = the fragment's typing assumption is violated (a
-tuple pattern that tests or binds a field the value does not have, a read of a name that has no
-slot) — the compiler only emits this code for well-typed programs. They follow the CODE where the code
-is more liberal than a reading of the pattern would be: a tuple pattern does not check the width (the
-static type did), and stops testing at the first literal that differs.
+The **alignment invariant** of Compile1 (run-time locals of the frame = compile-time slot list, in
+length) holds along every chain; a sequence that short-circuits leaves it (the skipped steps' Stores are
+skipped too) — which is exactly what the Reset discipline repairs: every exit of a branch goes through a
+`Reset` back to `n+1` (or has provably stored nothing), and every exit of the block through `Reset(n)`.
 -/
 namespace QM.RefSem.C2
 open QM.VM
-
-/-- sub-pattern / top-level simple pattern -/
-inductive Sub where
-  | bind (x : String)
-  | wild
-  | lit (z : Int) (cidx : Nat)
-
-inductive Pat1 where
-  /-- `=x`, `=_`, `=5` -/
-  | top (s : Sub)
-  /-- `=[p₀, …, pₙ₋₁]` (any tuple name: the static type is exactly the pattern's, no `IsType`) -/
-  | tup (subs : List Sub)
+open QM.RefSem.C1 (Sub Pat1 slot compilePat patBinds evalPat wfPat wfProg)
 
 mutual
-  inductive T1 where
+  inductive T2 where
     | int (z : Int) (cidx : Nat)
     | ripple
-    | tup (id : Nat) (fields : Fs1)
+    | tup (id : Nat) (fields : Fs2)
     /-- read the variable `x` (it replaces the flowing value) -/
     | var (x : String)
     /-- `=p` -/
     | mtch (p : Pat1)
     /-- `{ | cond₁ => cons₁ | cond₂ | … }` -/
-    | block (bs : Brs1)
-  inductive Ch1 where
+    | block (bs : Brs2)
+  inductive Ch2 where
     | nil
-    | cons (t : T1) (rest : Ch1)
-  inductive Fs1 where
+    | cons (t : T2) (rest : Ch2)
+  inductive Fs2 where
     | nil
-    | cons (c : Ch1) (rest : Fs1)
+    | cons (c : Ch2) (rest : Fs2)
   /-- `c₁, c₂, …` -/
-  inductive Sq1 where
-    | last (c : Ch1)
-    | cons (c : Ch1) (rest : Sq1)
-  inductive OSq1 where
+  inductive Sq2 where
+    | last (c : Ch2)
+    | cons (c : Ch2) (rest : Sq2)
+  inductive OSq2 where
     | none
-    | some (s : Sq1)
+    | some (s : Sq2)
   /-- the branches of a block: condition, optional consequence -/
-  inductive Brs1 where
+  inductive Brs2 where
     | nil
-    | cons (cond : Sq1) (cons : OSq1) (rest : Brs1)
+    | cons (cond : Sq2) (cons : OSq2) (rest : Brs2)
 end
 
-def Brs1.isNil : Brs1 → Bool
+def Brs2.isNil : Brs2 → Bool
   | .nil => true
   | .cons _ _ _ => false
 
-def Fs1.length : Fs1 → Nat
+def Fs2.length : Fs2 → Nat
   | .nil => 0
   | .cons _ r => r.length + 1
-
-/-- the slot of `x`: the last position of `x` in `Γ` (innermost binding) -/
-def slot : List String → String → Option Nat
-  | [], _ => none
-  | y :: r, x =>
-    match slot r x with
-    | some i => some (i + 1)
-    | none => if x = y then some 0 else none
-
-/-! ### compile_match for the simple patterns -/
-
-def subBinds : Sub → List String
-  | .bind x => [x]
-  | _ => []
-
-/-- the binders of a tuple pattern with their field indices, field `k` onwards -/
-def binders : List Sub → Nat → List (String × Nat)
-  | [], _ => []
-  | .bind x :: r, k => (x, k) :: binders r (k + 1)
-  | .wild :: r, k => binders r (k + 1)
-  | .lit _ _ :: r, k => binders r (k + 1)
-
-def insertB (a : String × Nat) : List (String × Nat) → List (String × Nat)
-  | [] => [a]
-  | b :: r => if b.1 < a.1 then b :: insertB a r else a :: b :: r
-
-/-- pattern::analyze_pattern sorts the bindings by name (`all_bindings.sort_by(|a, b| a.0.cmp(&b.0))`):
-slots are handed out in that order, not in field order -/
-def sortB : List (String × Nat) → List (String × Nat)
-  | [] => []
-  | a :: r => insertB a (sortB r)
-
-def subsBinds (subs : List Sub) : List String := (sortB (binders subs 0)).map (·.1)
-
-def patBinds : Pat1 → List String
-  | .top s => subBinds s
-  | .tup subs => subsBinds subs
-
-/-- test of a top-level literal; `q` = position of its first instruction in the template (the fail
-jump is at position 1) -/
-def testTop : Sub → Nat → List Instr
-  | .lit _ c, q => [.duplicate, .constant c, .equal 2, .not, .jumpIf (-((q + 4 : Nat) : Int))]
-  | _, _ => []
-
-def bindTop : Sub → List Instr
-  | .bind _ => [.duplicate, .store]
-  | _ => []
-
-/-- tests of the literal sub-patterns, field `k` onwards, first instruction at template position `q` -/
-def testsFields : List Sub → Nat → Nat → List Instr
-  | [], _, _ => []
-  | .lit _ c :: r, k, q =>
-    [.duplicate, .get k, .constant c, .equal 2, .not, .jumpIf (-((q + 5 : Nat) : Int))] ++ testsFields r (k + 1) (q + 6)
-  | .bind _ :: r, k, q => testsFields r (k + 1) q
-  | .wild :: r, k, q => testsFields r (k + 1) q
-
-def bindsCode : List (String × Nat) → List Instr
-  | [] => []
-  | (_, k) :: r => [.duplicate, .get k, .store] ++ bindsCode r
-
-def nilFill : Nat → List Instr
-  | 0 => []
-  | n + 1 => [.tuple 0, .store] ++ nilFill n
-
-def matchCode (tests binds : List Instr) (nb : Nat) : List Instr :=
-  [.jump 1, .jump ((tests.length + binds.length + 3 : Nat) : Int)] ++ (tests ++ (binds ++
-    ([.pop, .tuple 1, .jump ((2 * nb + 2 : Nat) : Int)] ++ (nilFill nb ++ [.pop, .tuple 0]))))
-
-def compilePat : Pat1 → List Instr
-  | .top s => matchCode (testTop s 2) (bindTop s) (subBinds s).length
-  | .tup subs => matchCode (testsFields subs 0 2) (bindsCode (sortB (binders subs 0))) (subsBinds subs).length
 
 /-- `Reset(n + 1)` — drop a branch's bindings, keep the block parameter — emitted only if the branch
 has (compile-time) bindings -/
@@ -163,7 +69,7 @@ def resetIf (len n : Nat) : List Instr := if len > n + 1 then [.reset (n + 1)] e
 
 mutual
   /-- code and the compile-time locals afterwards -/
-  def compileT (Γ : List String) : T1 → List Instr × List String
+  def compileT (Γ : List String) : T2 → List Instr × List String
     | .int _ i => ([.pop, .constant i], Γ)
     | .ripple => ([], Γ)
     | .tup id fs =>
@@ -178,19 +84,19 @@ mutual
       let r := compileBrs (Γ ++ [""]) Γ.length bs 0 true
       ([.store] ++ (r.1 ++ ([.reset Γ.length] ++
         ((if r.2 = [] then [] else [.jump ((r.2.length : Nat) : Int)]) ++ r.2))), Γ)
-  def compileCh (Γ : List String) : Ch1 → List Instr × List String
+  def compileCh (Γ : List String) : Ch2 → List Instr × List String
     | .nil => ([], Γ)
     | .cons t r =>
       let a := compileT Γ t
       let b := compileCh a.2 r
       (a.1 ++ b.1, b.2)
-  def compileFs (Γ : List String) : Fs1 → Nat → List Instr × List String
+  def compileFs (Γ : List String) : Fs2 → Nat → List Instr × List String
     | .nil, _ => ([], Γ)
     | .cons c r, k =>
       let a := compileCh Γ c
       let b := compileFs a.2 r (k + 1)
       ([.pick k] ++ a.1 ++ b.1, b.2)
-  def compileSq (Γ : List String) : Sq1 → List Instr × List String
+  def compileSq (Γ : List String) : Sq2 → List Instr × List String
     | .last c => compileCh Γ c
     | .cons c r =>
       let a := compileCh Γ c
@@ -205,7 +111,7 @@ mutual
     with consequence: [Pop] Load(n) cond Duplicate Not JumpIf(→T) Pop Load(n) cons [Reset(n+1)] [Jump(→PC)]
        T = the next branch (the parameter clear for the last one) — via this branch's cleanup block
        `Reset(n+1), Jump(→ back to the next branch / PC)` if the condition has bindings -/
-  def compileBrs (Γp : List String) (n : Nat) : Brs1 → Nat → Bool → List Instr × List Instr
+  def compileBrs (Γp : List String) (n : Nat) : Brs2 → Nat → Bool → List Instr × List Instr
     | .nil, _, _ => ([], [])
     | .cons cond .none rest, k, first =>
       let c := compileSq Γp cond
@@ -217,61 +123,19 @@ mutual
       let needs : Bool := decide (c.2.length > n + 1)
       let r := compileBrs Γp n rest (if needs then k + 1 else k) false
       let cc := compileSq c.2 cons
-      let tail : List Instr := [.pop, .load n] ++ (cc.1 ++ (resetIf cc.2.length n ++
-        (if rest.isNil then [] else [.jump (r.1.length : Int)])))
-      let off : Nat := if needs then tail.length + r.1.length + 2 + 2 * k else tail.length
+      let ej : List Instr := if rest.isNil then [] else [.jump (r.1.length : Int)]
+      -- length of `Pop, Load(n), cons, [Reset(n+1)], [Jump]`
+      let tailLen : Nat := 2 + cc.1.length + (resetIf cc.2.length n).length + ej.length
+      let off : Nat := if needs then tailLen + r.1.length + 2 + 2 * k else tailLen
       ((if first then [] else [.pop]) ++ ([.load n] ++ (c.1 ++ ([.duplicate, .not, .jumpIf (off : Int)] ++
-        (tail ++ r.1)))),
+        ([.pop, .load n] ++ (cc.1 ++ (resetIf cc.2.length n ++ (ej ++ r.1))))))),
        (if needs then [.reset (n + 1), .jump (-((r.1.length + 2 * k + 4 : Nat) : Int))] else []) ++ r.2)
 end
 
-/-! ### Meaning: the value and the frame's locals afterwards -/
-
-def subPasses (v : Val) : Sub → Bool
-  | .lit z _ => decide (v = .int z)
-  | _ => true
-
-def subBound (v : Val) : Sub → List Val
-  | .bind _ => [v]
-  | _ => []
-
-/-- the fields a `Get` can reach -/
-def fieldsOf : Val → List Val
-  | .tup _ els => els.toList
-  | _ => []
-
-/-- the literal tests, in field order, stopping at the first that fails (`none`: a tested field does
-not exist — `Get` fails) -/
-def fieldsPass : List Sub → Nat → List Val → Option Bool
-  | [], _, _ => some true
-  | .lit z _ :: r, k, vs =>
-    match vs[k]? with
-    | none => none
-    | some v => if v = .int z then fieldsPass r (k + 1) vs else some false
-  | .bind _ :: r, k, vs => fieldsPass r (k + 1) vs
-  | .wild :: r, k, vs => fieldsPass r (k + 1) vs
-
-/-- the values stored for the (sorted) binders -/
-def bindVals : List (String × Nat) → List Val → Option (List Val)
-  | [], _ => some []
-  | (_, k) :: r, vs =>
-    match vs[k]?, bindVals r vs with
-    | some v, some rest => some (v :: rest)
-    | _, _ => none
-
-/-- the verdict and the values stored (one per binder, in NAME order; nil for each on failure) -/
-def evalPat (flow : Val) : Pat1 → Option (Val × List Val)
-  | .top s =>
-    if subPasses flow s then some (Val.ok, subBound flow s)
-    else some (Val.nil, List.replicate (subBinds s).length Val.nil)
-  | .tup subs =>
-    match fieldsPass subs 0 (fieldsOf flow) with
-    | some true => (bindVals (sortB (binders subs 0)) (fieldsOf flow)).map fun vs => (Val.ok, vs)
-    | some false => some (Val.nil, List.replicate (subsBinds subs).length Val.nil)
-    | none => none
+/-! ### Meaning -/
 
 mutual
-  def evalT (Γ : List String) (L : List Val) (flow : Val) : T1 → Option (Val × List Val)
+  def evalT (Γ : List String) (L : List Val) (flow : Val) : T2 → Option (Val × List Val)
     | .int z _ => some (.int z, L)
     | .ripple => some (flow, L)
     | .tup id fs => (evalFs Γ L flow fs).map fun r => (.tup id (ValList.ofList r.1), r.2)
@@ -279,11 +143,11 @@ mutual
     | .mtch p => (evalPat flow p).map fun r => (r.1, L ++ r.2)
     -- "Blocks create new scopes": the locals afterwards are the locals before
     | .block bs => (evalBrs (Γ ++ [""]) (L ++ [flow]) flow bs).map fun v => (v, L)
-  def evalCh (Γ : List String) (L : List Val) (flow : Val) : Ch1 → Option (Val × List Val)
+  def evalCh (Γ : List String) (L : List Val) (flow : Val) : Ch2 → Option (Val × List Val)
     | .nil => some (flow, L)
     | .cons t r => (evalT Γ L flow t).bind fun a => evalCh (compileT Γ t).2 a.2 a.1 r
   /-- every field starts from `flow`; bindings made in a field persist -/
-  def evalFs (Γ : List String) (L : List Val) (flow : Val) : Fs1 → Option (List Val × List Val)
+  def evalFs (Γ : List String) (L : List Val) (flow : Val) : Fs2 → Option (List Val × List Val)
     | .nil => some ([], L)
     | .cons c r =>
       (evalCh Γ L flow c).bind fun a =>
@@ -291,7 +155,7 @@ mutual
   /-- the nil short-circuit: the remaining steps are skipped — and so are their Stores: after a nil step
   the locals are NOT aligned with the sequence's compile-time `Γ` any more (that is why every enclosing
   scope ends in a `Reset`) -/
-  def evalSq (Γ : List String) (L : List Val) (flow : Val) : Sq1 → Option (Val × List Val)
+  def evalSq (Γ : List String) (L : List Val) (flow : Val) : Sq2 → Option (Val × List Val)
     | .last c => evalCh Γ L flow c
     | .cons c r =>
       (evalCh Γ L flow c).bind fun a =>
@@ -299,7 +163,7 @@ mutual
   /-- the branches in order, each condition from the block parameter `flow` with the locals `Lp`
   (= the locals before the block and the parameter): the first condition that is not nil commits; its
   consequence — if any — starts again from the parameter and sees the condition's bindings -/
-  def evalBrs (Γp : List String) (Lp : List Val) (flow : Val) : Brs1 → Option Val
+  def evalBrs (Γp : List String) (Lp : List Val) (flow : Val) : Brs2 → Option Val
     | .nil => some Val.nil
     | .cons cond .none rest =>
       (evalSq Γp Lp flow cond).bind fun a =>
@@ -310,41 +174,26 @@ mutual
         else (evalSq (compileSq Γp cond).2 a.2 flow cons).map fun b => b.1
 end
 
-/-! ### Well-formedness: the program tables say what the term says -/
-
-def wfSub (P : Prog) : Sub → Prop
-  | .lit z i => P.constants[i]? = some (.int z)
-  | _ => True
-
-def wfSubs (P : Prog) : List Sub → Prop
-  | [] => True
-  | s :: r => wfSub P s ∧ wfSubs P r
-
-def wfPat (P : Prog) : Pat1 → Prop
-  | .top s => wfSub P s
-  | .tup subs => wfSubs P subs
-
-/-- `types::NIL = 0`, `types::OK = 1`, both field-less -/
-def wfProg (P : Prog) : Prop := P.tuples[0]? = some 0 ∧ P.tuples[1]? = some 0
+/-! ### Well-formedness -/
 
 mutual
-  def wfT (P : Prog) : T1 → Prop
+  def wfT (P : Prog) : T2 → Prop
     | .int z i => P.constants[i]? = some (.int z)
     | .ripple => True
     | .tup id fs => P.tuples[id]? = some fs.length ∧ wfFs P fs
     | .var _ => True
     | .mtch p => wfPat P p
-    | .block bs => wfBrs P bs
-  def wfCh (P : Prog) : Ch1 → Prop
+    | .block bs => bs.isNil = false ∧ wfBrs P bs
+  def wfCh (P : Prog) : Ch2 → Prop
     | .nil => True
     | .cons t r => wfT P t ∧ wfCh P r
-  def wfFs (P : Prog) : Fs1 → Prop
+  def wfFs (P : Prog) : Fs2 → Prop
     | .nil => True
     | .cons c r => wfCh P c ∧ wfFs P r
-  def wfSq (P : Prog) : Sq1 → Prop
+  def wfSq (P : Prog) : Sq2 → Prop
     | .last c => wfCh P c
     | .cons c r => wfCh P c ∧ wfSq P r
-  def wfBrs (P : Prog) : Brs1 → Prop
+  def wfBrs (P : Prog) : Brs2 → Prop
     | .nil => True
     | .cons cond .none rest => wfSq P cond ∧ wfBrs P rest
     | .cons cond (.some cons) rest => wfSq P cond ∧ wfSq P cons ∧ wfBrs P rest
